@@ -75,7 +75,7 @@ def surface_desc(surface, w):
     return d
 
 
-def record_events(optic, w, ray_base=0, max_rays=None, polarized=False):
+def record_events(optic, w, ray_base=0, max_rays=None, polarized=False, returned=None):
     """Events for every ray of the trace that was just performed on `optic`
     (optic.surface_group holds the per-surface records).  Returns list of
     events without ids."""
@@ -107,7 +107,9 @@ def record_events(optic, w, ray_base=0, max_rays=None, polarized=False):
                   "p": [dy(v) for v in p],
                   "d": [dy(float(L[k, r])), dy(float(M[k, r])), dy(float(N[k, r]))],
                   "o": dy(float(O[k, r])), "i": dy(float(I[k, r])),
-                  "ab": dy(ab), "kz": k1 == 0.0}
+                  "ab": dy(ab), "kz": k1 == 0.0,
+                  "last": returned is not None and k == ns - 1,
+                  "ri": dy(float(np.ravel(returned.i)[r])) if (returned is not None and k == ns - 1) else ZERO}
             for key, val in d.items():
                 if not key.startswith("_"):
                     ev[key] = val
